@@ -151,6 +151,7 @@ theorem pmLoop_id_send (key : M → ι) (f : Nat) (pm : PM M ι R V E) (q : Pos 
       ((q.resume (.send r)).1.isYld = true → pmT st (q.resume (.send r)).2) := by
   unfold pmLoop pmIter
   simp only [hex, hrs, hps]
+  unfold pmOnSend
   cases hres : q.resume (.send r) with
   | mk o q' =>
     cases o with
@@ -177,6 +178,7 @@ theorem pmLoop_id_throw (key : M → ι) (f : Nat) (pm : PM M ι R V E) (q : Pos
       ((q.resume (.throw e)).1.isYld = true → pmT st (q.resume (.throw e)).2) := by
   unfold pmLoop pmIter
   simp only [hex, hps]
+  unfold pmOnThrow
   cases hres : q.resume (.throw e) with
   | mk o q' =>
     cases o with
